@@ -121,6 +121,27 @@ CLAIMED["C10"] = dict(
     technique="runtime monitoring: round-trip oracles over the real formatter (AST fingerprint, literal and comment scanners, idempotence)",
 )
 
+CLAIMED["C09"] = dict(
+    category="exploration",
+    text="Hostile text (random UTF-8, token soups, token-level mutations of generated programs and of the repository's "
+         ".glu files, nesting ladders up to depth 200) is pushed through the real parser and through typecheck_str with "
+         "and without the prelude in child processes; monitors: panic / death, a CPU-time budget enforced by an in-process "
+         "watchdog, every error span inside its file on char boundaries, emit_string non-empty.",
+    design_ref="DESIGN.md §4 C09",
+    note="'Moderate nesting' = depth <= 200; 'never hangs' = 30 s process CPU time. Panic sites and span defects found on "
+         "the unchanged tree are listed (F28, F29, F36-F39, ...); F14-F16 fixed.",
+    technique="runtime monitoring: fuzz-style hostile inputs with crash, CPU-budget and error-span monitors",
+)
+CLAIMED["C18"] = dict(
+    category="exploration",
+    text="Types drawn from the surface type grammar are rendered with Display and TypeFormatter at widths 20-200 and read "
+         "back by the real parser in the same position; the two ArcTypes must be equal.",
+    design_ref="DESIGN.md §4 C18",
+    note="Only types the grammar can spell; two renderings pinned by the repository's tests are listed (F34, F35); two "
+         "others were repaired.",
+    technique="runtime monitoring: render/parse round-trip oracle with structural type equality",
+)
+
 NOT_YET = "check not built yet in this session (work in progress; see DESIGN.md for the planned monitor)"
 
 def main():
